@@ -51,6 +51,11 @@ def cases(tier):
         out.append(dict(kind="sel", axes=["X", "Y"], reg=list(r), N=2))
         if tier == "thorough" and len(r) > 1:
             out.append(dict(kind="sel", axes=["X", "Y"], reg=list(r)[::-1], N=2))
+    # three axes: registries offering partitions of different block sizes ("largest block first")
+    for reg in (["mxy_cc", "mx_c", "my_c", "mz_c"], ["mxz_cc", "mx_c", "my_c", "mz_c"], ["myz_cc", "mx_c", "my_c", "mz_c"], ["mxy_cc", "mz_c"],
+                ["mxy_lc", "mx_c", "my_c", "mz_c"], ["mxy_cc", "myz_cc", "mx_c", "my_c", "mz_c"], ["mx_c", "my_c", "mz_c"], ["mx_l", "my_c", "mz_o"],
+                ["mxyz_ccc", "mxy_cc", "mz_c"], ["mxy_cc", "mz_o", "mx_l"], ["mx_c", "my_c"], ["mxz_lc", "my_l"]):
+        out.append(dict(kind="sel", axes=["X", "Y", "Z"], reg=reg, N=2))
     if tier == "thorough":
         rng = random.Random(int(os.environ.get("VERIF_SEED", "0")))
         P3 = list(pool(["X", "Y", "Z"]))
